@@ -189,20 +189,20 @@ func run(c *fw.Ctx) {
 		}
 		sort.Strings(names)
 		for _, n := range names {
-			if tds[n].HasBundle() {
-				c.Count("testdata.bundle-skipped")
-				continue
-			}
 			r.all("testdata", tds[n], 0)
 		}
 	}
 	// (3) small scope
-	for k := 0; k < c.N(250, 20000); k++ {
+	for k := 0; k < c.N(450, 8000); k++ {
 		r.all("small", universe.GenNpm(c.Rng, universe.NpmGenOpts{Small: true, Aliases: k%4 == 3}), 0)
 	}
 	// (4) per the quantifier
-	for k := 0; k < c.N(260, 24000); k++ {
+	for k := 0; k < c.N(400, 2400); k++ {
 		r.all("random", universe.GenNpm(c.Rng, universe.NpmGenOpts{Aliases: k%3 == 2}), c.N(12, 0))
+	}
+	// (5) with bundled (derived) packages: graph clauses only; answered by the extended model
+	for k := 0; k < c.N(160, 1500); k++ {
+		r.all("bundle", universe.GenNpm(c.Rng, universe.NpmGenOpts{Bundles: true, Small: k%3 == 0}), c.N(12, 0))
 	}
 	if os.Getenv("C06_SAMPLES") != "" {
 		c.Note("samples requested")
